@@ -293,8 +293,6 @@ class Array(Processor):
 
     def process(self, ctx: ProcessContext, di: DataIndexer, accessor: Accessor) -> None:
         with di.index_stack_maintain():
-            # Record current number of bits processed.
-            i = ctx.i
             # Opponent array capacity if extensible set.
             ahead = 0
 
@@ -311,11 +309,12 @@ class Array(Processor):
                 di.index_stack_replace(k)
                 self.element_processor.process(ctx, di, accessor)
 
-            # Skip redundant bits post decoding.
+            # Skip redundant elements post decoding: the opponent's array holds
+            # `ahead` elements, walk over those beyond our capacity and drop them.
             if self.extensible and not ctx.is_encode:
-                ito = i + ahead * self.capacity
-                if ito >= ctx.i:
-                    ctx.i = ito
+                nil_accessor = NilAccessor()
+                for _ in range(self.capacity, ahead):
+                    self.element_processor.process(ctx, di, nil_accessor)
 
     def encode_extensible_ahead(self, ctx: ProcessContext) -> None:
         """Encode the array capacity as the ahead flag to current bit encoding stream."""
